@@ -9,7 +9,8 @@ UNIT = Unit(
     properties=["C20"],
     rules=["attrs", "fmtmsg", ("strip", "tast::"), "for_index"],
     describe="query::colon_colon_items_for_namespace, the enum case (fragment): the completions offered after `Enum::` are named like variants THAT enum's definition has — "
-             "nothing that is not one of its variants is offered (which variants are offered, and the detail text, are not the property's business)",
+             "nothing that is not one of its variants is offered (which variants are offered, and the detail text, are not the property's business); the trait case (fragment): "
+             "the items offered after `Trait::` name methods the trait's definition has",
     trusted=["FRAGMENT cc_enum_variants: the body of `if let Some(enum_def) = genv.enums().get(..)` up to the inherent methods (U-COMPLMETH's subject); the lookup of the enum, the "
              "other namespaces (traits, structs, packages) are dropped; the detail text (payload pretty-printing, an iterator chain) is the stub payload_text / rt_msg; "
              "String clone / to_string keep the text"],
@@ -31,5 +32,15 @@ UNIT = Unit(
            loop_fn=lambda k, header, kw: (lambda mt: (f"invariant {mt.group(1)} <= enum_def.variants.len(), items@.len() >= old(items)@.len(), items@.subrange(0, old(items)@.len() as int) =~= old(items)@,\n"
                f"  forall|i: int| old(items)@.len() <= i < items@.len() ==> is_variant(enum_def.variants@, (#[trigger] items@[i]).name@),\n decreases enum_def.variants.len() - {mt.group(1)},") if mt else None)(
                re.search(r"while\s+(__fk\d+)\s*<\s*enum_def\.variants\.len\(\)", header))),
+        Fn(file=Q, name="colon_colon_items_for_namespace", rename="cc_trait_methods", attrs="#[verifier::loop_isolation(false)]", rules=["attrs", "fmtmsg", ("strip", "tast::"), "for_entries"],
+           cut_from=re.compile(r"if let Some\(trait_def\) = genv\.trait_env\.trait_defs\.get\(namespace\) \{"), cut_inside=True, cut_before="@block-end", cut_tail="",
+           sig="fn cc_trait_methods(trait_def: &TraitDef, namespace: &str, items: &mut Vec<ColonColonCompletionItem>)",
+           pre_rewrites=[(re.compile(r"\b(\w+)\.clone\(\)"), r"string_clone(\1)", "*"), ("scheme.ty.to_pretty(80)", "scheme_text(scheme)", "*")],
+           obligation="every item added for a trait names a method of the trait's definition",
+           contract="ensures methods_offered(trait_def.methods@, old(items)@, final(items)@),",
+           loop_fn=lambda k, header, kw: (lambda mt: (f"invariant {mt.group(1)} <= {mt.group(2)}.len(), items@.len() >= old(items)@.len(), items@.subrange(0, old(items)@.len() as int) =~= old(items)@,\n"
+               f"  forall|i: int| 0 <= i < {mt.group(2)}@.len() ==> trait_def.methods@.contains_key((#[trigger] {mt.group(2)}@[i]).0@),\n"
+               f"  forall|i: int| old(items)@.len() <= i < items@.len() ==> trait_def.methods@.contains_key((#[trigger] items@[i]).name@),\n decreases {mt.group(2)}.len() - {mt.group(1)},") if mt else None)(
+               re.search(r"while\s+(__ek\d+)\s*<\s*(__es\d+)\.len\(\)", header))),
     ],
 )
